@@ -401,6 +401,7 @@ type oval struct {
 	typ   string // Go type; "nil", "untyped", "tuple:.."
 	lv    *olval
 	fresh bool // a new object (composite literal / call result): may be moved
+	view  bool // a re-slice `s[a:b]`: shares the backing array of s; may only be copied (Clone, `...` spread), cleared, discarded
 	// call results: per result the path (receiver / argument of the call) it may be a second reference to
 	aliasLv []*olval
 }
@@ -816,7 +817,7 @@ func (x *otrans) expr(e ast.Expr, en oenv, want string) oval {
 		}
 		bind := x.tmp("t")
 		x.guards = append(x.guards, oguard{kind: "opt", e: "goSlice " + paren(l.lean) + " " + lo + " " + hi, bind: bind})
-		return oval{lean: bind, typ: l.typ}
+		return oval{lean: bind, typ: l.typ, view: true}
 	case *ast.BinaryExpr:
 		return x.binary(e, en)
 	case *ast.TypeAssertExpr:
@@ -886,6 +887,9 @@ func (x *otrans) composite(e *ast.CompositeLit, en oenv) oval {
 			continue
 		}
 		v := x.coerce(x.expr(kv.Value, en, ft), ft)
+		if v.view {
+			fail("the re-slice %s is stored in a composite literal (it shares a backing array)", norm(src(kv.Value)))
+		}
 		x.moveIfObject(v, en)
 		parts = append(parts, fn+" := "+v.lean)
 	}
@@ -1128,6 +1132,9 @@ func (x *otrans) callEnv(name string, spec oEnvSpec, recv *oval, args []ast.Expr
 			continue
 		}
 		v := x.coerce(x.expr(a, en, ptypes[i]), ptypes[i])
+		if v.view {
+			fail("%s: the re-slice %s is passed on (it shares a backing array with the caller's slice)", name, norm(src(a)))
+		}
 		add(i+1, v, ptypes[i])
 	}
 	var kept []string
@@ -1202,6 +1209,9 @@ func (x *otrans) callShape(key string, sh oshape, recv *oval, args []ast.Expr, e
 			}
 		} else if v.typ == "untyped" {
 			v = x.coerce(v, "int")
+		}
+		if v.view {
+			fail("%s: the re-slice %s is passed on (it shares a backing array with the caller's slice)", key, norm(src(a)))
 		}
 		callArgs += " " + paren(v.lean)
 		argLv[i+1] = v.lv
@@ -1316,6 +1326,9 @@ func (x *otrans) callT(e *ast.CallExpr, en oenv, targets []ast.Expr) (oval, *oef
 			if li.Kind != "list" {
 				fail("append to %s", l.typ)
 			}
+			if l.view {
+				fail("append to the re-slice %s", norm(src(e.Args[0])))
+			}
 			if e.Ellipsis.IsValid() {
 				r := x.coerce(x.expr(e.Args[1], en, l.typ), l.typ)
 				return oval{lean: "(" + paren(l.lean) + " ++ " + paren(r.lean) + ")", typ: l.typ, fresh: true}, nil
@@ -1394,6 +1407,9 @@ func (x *otrans) callT(e *ast.CallExpr, en oenv, targets []ast.Expr) (oval, *oef
 			if x.ti(l.typ).Kind != "list" {
 				fail("slices.Delete on %s", l.typ)
 			}
+			if l.view {
+				fail("slices.Delete of the re-slice %s (shares a backing array)", norm(src(e.Args[0])))
+			}
 			x.consumed(e.Args[0], targets)
 			bind := x.tmp("t")
 			x.guards = append(x.guards, oguard{kind: "opt", e: "goSlicesDelete " + paren(l.lean) + " " + paren(x.intExpr(e.Args[1], en)) + " " + paren(x.intExpr(e.Args[2], en)), bind: bind})
@@ -1404,7 +1420,21 @@ func (x *otrans) callT(e *ast.CallExpr, en oenv, targets []ast.Expr) (oval, *oef
 			if li.Kind != "list" || len(e.Args) != 3 {
 				fail("unsupported slices.Insert form %s", norm(src(e)))
 			}
-			x.consumed(e.Args[0], targets)
+			if l.view {
+				// `right = slices.Insert(right[:0], 0, right[count:]...)`: the re-slice of the TARGET itself is overwritten
+				se, _ := e.Args[0].(*ast.SliceExpr)
+				ok := false
+				for _, t := range targets {
+					if se != nil && norm(src(t)) == norm(src(se.X)) {
+						ok = true
+					}
+				}
+				if !ok {
+					fail("slices.Insert into the re-slice %s, which the result does not overwrite (shares a backing array)", norm(src(e.Args[0])))
+				}
+			} else {
+				x.consumed(e.Args[0], targets)
+			}
 			var ins string
 			if e.Ellipsis.IsValid() {
 				ins = x.coerce(x.expr(e.Args[2], en, l.typ), l.typ).lean
